@@ -149,7 +149,7 @@ func VerifC18_Sequences() {
 	L := verifrt.Param("L", 3)
 	n := 1 + verifrt.Choose(L)
 	for step := 0; step < n; step++ {
-		kind := verifrt.Choose(9)
+		kind := verifrt.Choose(10)
 		switch {
 		case kind <= 6:
 			b.op(kind, b.mapS, b.dskS, b.ref)
@@ -165,6 +165,13 @@ func VerifC18_Sequences() {
 			verifrt.Assert(b.dskS.Update(od) == nil, "disk replace ok")
 			b.ref = oref
 			verifrt.Assert(verifrt.TempResidue("/work") == 0, "no temporary directory left after a replacement")
+		case kind == 9: // a reader asks for everything in between (getters must not remember what they returned)
+			for _, st := range []CRLStore{b.mapS, b.dskS} {
+				_, _ = st.GetCRLSignatureCert()
+				_, _ = st.GetCRLMetaInfo()
+				_, _ = st.GetCRLExtMetaInfo()
+				_, _ = st.GetCRLLocations()
+			}
 		case kind == 8: // close + reopen (disk); memory is unaffected
 			b.dskS.Close()
 			var err error
